@@ -62,6 +62,9 @@ func (c10) Probes() []string {
 func mutateReq(r *R, q Req, other []Req) Req {
 	names := []string{hOrigin, hACRM, hACRH, hACRPN, hOrigin, hACRM, hACRH, hACRPN, "X-Unrelated", "Cookie", "Sec-Fetch-Mode", "Sec-Fetch-Site", "Referer",
 		"Authorization", "Content-Type", "Access-Control-Request-Local-Network", "X-Forwarded-For", "Accept", "User-Agent", "Access-Control-Request-Credentials"}
+	if r.P(0.1) {
+		q.Shape = r.Intn(nShapes) // same URL for most shapes: a cache does not key on protocol version, TLS or peer address
+	}
 	n := r.Range(1, 2)
 	for i := 0; i < n; i++ {
 		k := pick(r, names)
@@ -82,7 +85,7 @@ func mutateReq(r *R, q Req, other []Req) Req {
 				"Authorization": {"Bearer x"}, "Content-Type": {"application/json", "text/plain"}, "Access-Control-Request-Local-Network": {"true"},
 				"X-Forwarded-For": {"10.0.0.1"}, "Accept": {"*/*"}, "User-Agent": {"curl/8"}, "Access-Control-Request-Credentials": {"true"}}[k]
 			v := pick(r, vals)
-			if dv, ok := dictStr(r, dict.any, 0.15); ok {
+			if dv, ok := dict.any.pick(r, 0.15); ok {
 				v = dv // a literal of the tree under test
 			}
 			q = q.with(k, v)
@@ -288,7 +291,7 @@ func (c10) Exec(plan any, c *Ctx) *Violation {
 		}
 		hit := -1
 		for j, e := range cache {
-			if e.req.Method != q.Method || e.star {
+			if e.req.Method != q.Method || e.req.urlKey() != q.urlKey() || e.star {
 				continue
 			}
 			if agree(e.req, q, e.vary) {
